@@ -1515,7 +1515,7 @@ impl Parser {
                             let size = n as usize;
                             Expr::untyped(ExprEnum::ArrayRepeatLiteral(Box::new(elem), size), meta)
                         }
-                        Some(Token(TokenEnum::Identifier(n), _)) => {
+                        Some(Token(TokenEnum::Identifier(n), _)) if !only_literal_children => {
                             self.advance();
                             let meta_end = self.expect(&TokenEnum::RightBracket)?;
                             let meta = join_meta(meta, meta_end);
